@@ -12,890 +12,871 @@ Definition show_fres (r : fres) : string :=
   end.
 Definition check (rs : list rune) : string := digest (show_fres (format_res rs)).
 Definition full (rs : list rune) : string := show_fres (format_res rs).
-Eval vm_compute in ("<<<M146>>>" ++ check (runes_of_ascii "MetaData
-chars {	int8 Z9_,	float rootA	`tab	here`// @lengthOf(
-,
-//x
-// @lengthOf(
-T o `it's` ,
-roots int , // c
-repeatCount MetaDataX, float32
-    falsey `say ""hi""`,} packet
-    msg_type
-{ repeat f32
-o // `tick` ""quote"" 'q'
-, @tag( 0
-)char[]  A	,  repeat char[] tag `say ""hi""` ,repeat char[ 0 ] Z9_ ,
-zchar[ 1 ] lengthOf ,
-i64 T , match float as
-leftPad {
-    007 : len /// triple
-, ""it's"" : len
-    , ""it's"" : // @lengthOf(
-float
-    [ 255 ,
-00
-, ""abc"", ""abc""
-,
-1
-, """ ++ [28040; 24687]%N ++ runes_of_ascii """ // `tick` ""quote"" 'q'
-, ""x y"" , """" // a // b
-] :	_x ,
-    """" : len ,""\" ++ [233]%N ++ runes_of_ascii """  : // a // b
-i64_
-, //	t
-}, roots{ char[ 1
-]// @lengthOf(
-Header
-@lengthOf( x_y_z )
-    , body u128 , // `tick` ""quote"" 'q'
-char[]
-float ,chars@lengthOf( x  )
-    `doc` ,}
-,
-    crc `it's`
-    // `tick` ""quote"" 'q'
-    , @calculatedFrom(""" ++ [128512]%N ++ runes_of_ascii """
-    )
-    BodyLength `" ++ [28040; 24687; 31867; 22411]%N ++ runes_of_ascii "` , }
-    packet
-    u128{  lengthOf ,pack
-@lengthOf( u8x// c
-)`// not a comment`// " ++ [27880; 37322]%N ++ runes_of_ascii "
-,@leftPad
-    (
-' ' ) float{match
-    asx as
-    charz
-{ [ 4294967296,""""
-, 255 ,42
-    ,""1""  ] : u8x ""{,}""	: Foo 42  :
-leftPad[ // trailing space 
-255 ,
-    // " ++ [128512]%N ++ runes_of_ascii " emoji
-    ""a\""b"" , ""it's""  , 4294967296 ] : stringy , 3
-:Header ,
-} ,match o // `tick` ""quote"" 'q'
-as
-    Pad
-    // trailing space 
-    { 3 :
-    i64_//x
-, } ,repeat
-    string msg_type ,
-    match
-packetx // " ++ [27880; 37322]%N ++ runes_of_ascii "
-as
-lengthOf
-    { [ ""x y"","""" ]
-:x_y_z
-// " ++ [27880; 37322]%N ++ runes_of_ascii "
-// c
-}, } ,i64 float,repeat
-    zchar[ 3  ] rootA
-    `crlf
-line`, match msg_type as len{
-""CRC32"":
-MetaDataX
-,
-} ,
-    f32
-A , char[
-0123456789 ] chars// " ++ [27880; 37322]%N ++ runes_of_ascii "
-`{ , }` , /// triple
-@calculatedFrom( ""a\""b""
-) string
-string_
-    `" ++ [233]%N ++ runes_of_ascii "` ,}
-")).
-Eval vm_compute in ("<<<M1710>>>" ++ check (runes_of_ascii "// top
-		options 
-        // c0
-
-  {
-	LittleEndian 
-	    // c2
-=	false
-        // c4
-    ; 
-    // c5
-	StringPrefixLenType
-// c6
-	=  
-  // c7
-  u8 
-// c8
-  ;  // c9
-ArrayPrefixLenType// c10
-  	= 	 // c11a
-	// c11b
-	u64 
-    // c12
-    	; 	 // c13a
-  // c13b
-		FixedStringPadFromLeft
-	    // c14
-    	=	false;
-	// c17
-  FixedStringPadChar  // c18a
-
-	// c18b
-  = 
-  // c19
-
-	' '  // c20a
-
-// c20b
-  ; 
-} 
-
-// c22
-  packet
-    // c23
-
-Reject // c24a
-// c24b
-{ 	 // c25a
-
-	// c25b
-    repeat char[ 
-4  ] 	 // c29a
-
-	// c29b
-    seqNo // c30
-  	, 	 // c31
-		string // c32
-
-Px
-
-// c33
-    	,
-
-// c34
-  }
-root
-packet
-
-Trade 	 // c38a
-    // c38b
-	{ 	 // c39a
-
-// c39b
-
-@rightPad 
-( // c41
-    '0'  // c42
-
-) 
-        // c43
-	char[
-        // c44
-	2 	 // c45
-    ]
-	msgKind// c47
-
-	,	// c48
-    repeat
-	// c49
-f64
-        // c50
-
-	price 	 // c51a
-	// c51b
-, InAcct79 
-    // c53
-  { 
-    // c54
-
-  repeat	// c55a
-
-  // c55b
-
-	Reject 
-        // c56
-	, 
-// c57
-zchar[	// c58a
-
-// c58b
-  	7  // c59
-
-] 	 // c60a
-  	// c60b
-
-OrderId
-
-    // c61
-
-,
-// c62
-		}	// c63
-    ,// c64
-  Reject  // c65a
-
-// c65b
-	,// c66
-
-}
-
-")).
-Eval vm_compute in ("<<<M1835>>>" ++ check (runes_of_ascii "  options 
-    //x
-    // @lengthOf(
-  { Foo	= ""// no comment"" 
-/// triple
-//	t
-;	}
-packet
-    float{ }packet
-
-    len  {
-@lengthOf(  _x
-) stringy
-{
-
-metadata
-    @calculatedFrom( ""a\\"" ) ,
-
-}
-, 
-//x
-//
-
-  }packet
-    asx
-	{@tag(
-    0  )
-	repeat float64 A `say ""hi""` ,
-    //
-      // trailing space 
-    i16
-    int 
-`say ""hi""`
-	,
-@calculatedFrom(
-
-    """ ++ [128512]%N ++ runes_of_ascii """
-)	lengthOf Header
-`two words`
-	,
-
-    f32a  zchar	,
-
-@rightPad (
-
-'0' )
-	repeat	string_ 
-    // packet A { u8 x, }
-  chars
-	``
-
-, 
-@tag(
-4294967296
-) @calculatedFrom(
-    ""a	b""
-
-)  repeat msg_type
-
-,@leftPad(
-
-)
-
-repeat	f64
-_x
-
-    ,
-
-    repeat As
-    {  Logon @lengthOf(
-calculatedFrom	) `two words`  ,
-
-repeat
-u64	o
-`u8 x,`
-	,  } ,
-@calculatedFrom( ""packet"" 
-)
-
-    repeat // @lengthOf(
-		uint8
-u,
-}
-
-    packet uint8x {  @leftPad
-	( 
-'0' ) 
-  //	t
-	//x
-  zchar[ 
-
-    // packet A { u8 x, }
-// " ++ [27880; 37322]%N ++ runes_of_ascii "
-  255
-]
-	metadata `a\`
-
-,	//
-    }// `tick` ""quote"" 'q'
-")).
-Eval vm_compute in ("<<<M1380>>>" ++ check (runes_of_ascii "
-
-  options 
-{
-	FixedStringPadFromLeft	= true  ;
-FixedStringPadChar 
-='0' ; 
-} 
-packet
-Leg
-
-    {repeat	InSym93
-    {zchar[  3
-] Acct
-
-    ,
-string
-	Side2,i32 Flags
-    ,
-f32  Note,
-	i32
-msgKind	,
-	} ,	f64 
-Note,  uint16 Px  , }
-packet Quote{
-	zchar[ 2 ]OrderId
-    ,
-}packet Ack
-	{ repeat	string	lastPx
-,zchar[ 4  ] 
-price
-	,
-
-uint32
-OrderId
-    ,
-
-    Quote
-
-, int8 Acct
-,
-    }	packet Fill	{
-
-    repeat
-Leg	, @rightPad
-
-    ('0' )char[11	] Note,f64
-    Px
-
-, @rightPad	( '\x00'
-    )
-char[
-
-    5
-	] Flags ,
-zchar[
-
-    9
-
-    ] x ,
-string msgKind,} 
-root	packet
-
-Order
-	{
-	Leg
-, repeat
-Ack
-,@rightPad	('\x00'
-
-) 
-char[
-	3 ]
-
-Side2 ,
-    repeat 
-char[	1	]	seqNo ,	u16
-
-    clOrdID, match
-clOrdID as Body  {
-198  :Leg
-
-    , 
-23	:
-    Quote, 13
-
-    :Ack ,159 :
-    Fill ,
-
-    } 
-, u32  venue
-@calculatedFrom(
-	""CRC32""
-
-    ) ,}
-")).
-Eval vm_compute in ("<<<M1408>>>" ++ check (runes_of_ascii "packet leftPad {
-    //
-    i8 stringy @calculatedFrom(""" ++ [128512]%N ++ runes_of_ascii """),
-    int @calculatedFrom(""a	b"") `it's`,
-    @leftPad()
-    @tag(0123456789)
-    int32 u8x,
-    @lengthOf(A)
-    float64 u128 @calculatedFrom(""a\\""),//x
-}
-
-options {
-    //x
-    Pad = 0
-    u = ' '
-}
-
-MetaData a1 {
-    char[] metadata `// not a comment`,
-}
-
-packet Foo {
-    @tag(42)
-    repeat BodyLength,
-    int8 metadata `{ , }`,
-    @leftPad()
-    @calculatedFrom(""`tick`"")
-    @calculatedFrom(""a	b"")
-    u32 stringy,
-    @lengthOf(roots)
-    zchar[0] msg_type @lengthOf(i64_) `tab	here`,
-    i8 Header `{ , }`,
-    char[7] trueish @lengthOf(packetx),
-    u64 charz `
-        `,
-    zchar[65535] repeatCount `it's`,
-    match calculatedFrom as calculatedFrom {
-        ""a	b"" : roots,
-        42 : MetaDataX,
-    },
-}")).
-Eval vm_compute in ("<<<M1665>>>" ++ check (runes_of_ascii "options {
-    StringPrefixLenType = u8;
-    ArrayPrefixLenType = u32;
-    FixedStringPadFromLeft = true;
-    FixedStringPadChar = ' ';
-}
-
-packet Leg {
-}
-
-packet Heartbeat {
-    zchar[6] msgKind,
-    @rightPad('0')
-    char[3] Qty,
-    zchar[9] Side2,
-    i8 Acct,
-}
-
-packet Logout {
-    int8 x,
-}
-
-packet Order {
-    char[] Acct,
-    zchar[8] count,
-    u32 OrderId,
-    uint8 lastPx,
-    u16 clOrdID,
-    zchar[7] Note,
-}
-
-root packet Reject {
-    @leftPad(' ')
-    char[8] Side2,
-    i8 clOrdID,
-    repeat f32 x,
-    u32 lastPx,
-    match lastPx as Body {
-        [30, 147] : Heartbeat,
-        134 : Leg,
-        183 : Logout,
-        40 : Order,
-    },
-    u16 Ref @calculatedFrom(""CR\
-        C32""),
-}")).
-Eval vm_compute in ("<<<M184>>>" ++ check (runes_of_ascii "packet options1{@leftPad	( '0' )	@rightPad ( // a // b
-'\x00'
-) @tag(
-255
-) /// triple
-repeat string As `
-`,
-@calculatedFrom(
-"""" )@calculatedFrom(//x
-""x y"" )
-a1
-{ Foo {trueish { tag
-@lengthOf(  i8i8 ) `doc`
-, }
-, zchar[
-00 ] f32a @lengthOf( calculatedFrom) , repeat
-zchar[ 1
-    ] stringy`{ , }`
-    , },uint64  repeatCount	@lengthOf(// `tick` ""quote"" 'q'
-asx
-    ) , char[ 42
-] lengthOf @calculatedFrom(// c
-""packet""), char[ 10 ] calculatedFrom @lengthOf( BodyLength ), } ,
-asx`// not a comment`,  } options { matchKey =""" ++ [128512]%N ++ runes_of_ascii """ falsey = ""a\""b"" ; A // a // b
-= ""CRC32"" msg_type
-    =
-    //x
-    """ ++ [233]%N ++ runes_of_ascii "t" ++ [233]%N ++ runes_of_ascii """	; } MetaData o//	t
-{
-} packet
-Pad{  }")).
-Eval vm_compute in ("<<<M1312>>>" ++ check (runes_of_ascii "// top
-options // c0a
-  // c0b
-{ // c1a
-  // c1b
-FixedStringPadChar = // c3
-'0' ; } packet
-    // c7
-Q // c8
-{ // c9a
-  // c9b
-zchar[ // c10a
-  // c10b
-4 // c11
-] // c12
-z , // c14
-@rightPad ( // c16
-'\x00' ) // c18a
-  // c18b
-char[ 3 // c20a
-  // c20b
-]
-    // c21
-n ,
-    // c23
-char[
-    // c24
-5
-    // c25
-] // c26
-d // c27
-, } // c29a
-  // c29b
-root
-    // c30
-packet R
-    // c32
-{ // c33
-Q , // c35a
-  // c35b
-zchar[ 8 // c37
-] // c38
-top , // c40a
-  // c40b
-repeat
-    // c41
-zchar[
-    // c42
-2
-    // c43
-] // c44a
-  // c44b
-zs
-    // c45
-, // c46a
-  // c46b
-} // c47
-")).
-Eval vm_compute in ("<<<M1355>>>" ++ check (runes_of_ascii "options {
-    StringPrefixLenType = u8;
-    ArrayPrefixLenType = u8;
-    FixedStringPadFromLeft = false;
-    FixedStringPadChar = ' ';
-}
-packet Ack {
-    char[] tag7,
-}
-packet Reject {
-    InSym61 {
-        repeat Ack,
-        zchar[4] f1,
-    },
-}
-packet Logout {
-    char[4] clOrdID,
-}
-root packet Cancel {
-    @leftPad(' ') char[10] price,
-    u8 x,
-    u32 venue @lengthOf(Body),
-    match x as Body {
-        [92, 175] : Logout,
-        26 : Reject,
-        144 : Ack,
-    },
-    u16 count @calculatedFrom(""CRC32""),
-}
-")).
-Eval vm_compute in ("<<<M301>>>" ++ check (runes_of_ascii "root packet A { repeat uint64 matchKey
-    , char[]
-    Packet , char[
-    007 ] calculatedFrom , }
-options{ Header =
-007 ;
-float =
-    true} packet chars { repeat
-chars ,@rightPad
-    ( '0' ) chars f32a
-    `line1
+Eval vm_compute in ("<<<M263>>>" ++ check (runes_of_ascii "
+packet Z9_ //x
+{ @calculatedFrom( ""1"" )
+match
+body as u8x{ [ 7 ] :
+u ,
+[7
+,00, ""a\""b""
+, """" , ""\n"" , 00
+] : charz , 1	: // c
+Packet
+, """ ++ [28040; 24687]%N ++ runes_of_ascii """ :
+f32a ,  00 : // trailing space 
+len } ,@lengthOf(calculatedFrom )	MetaDataX
+    , Packet	@lengthOf(
+    int ) , repeat // `tick` ""quote"" 'q'
+char[ 7 ]calculatedFrom, @calculatedFrom(""a\\"" ) zchar[ //
+255 // " ++ [128512]%N ++ runes_of_ascii " emoji
+] f32a @calculatedFrom( """ ++ [233]%N ++ runes_of_ascii "t" ++ [233]%N ++ runes_of_ascii """ ) ,	@calculatedFrom( ""a\""b"" // packet A { u8 x, }
+)char[7
+    //	t
+    ] i8i8 @calculatedFrom(""a\\"") `crlf
+line` ,zchar[
+    0123456789	]
+x `line1
 line2`
-, int16
-u8x , @tag( 4294967296 ) @rightPad
-( )
-u64 packetx@calculatedFrom(""it's"" )
-,
-@calculatedFrom( ""\n"" ) o@calculatedFrom(""a\""b"" ), Logon	@lengthOf( BodyLength
-    /// triple
-    )
+,@leftPad () repeat
+u64 stringy , @lengthOf( x	) repeat
+body
+{//	t
+Z9_ {
+repeat asx , repeat crc i64_ // " ++ [27880; 37322]%N ++ runes_of_ascii "
+, repeat rootA { repeat rootA MetaDataX `line1
+line2`
+    // `tick` ""quote"" 'q'
+    ,match
+i64_ as
+calculatedFrom {
+    7
+:
+x[ 7 ] : stringy , ""1"": i8i8 , [
+""1"" , 42 ,
+// trailing space 
+/// triple
+""" ++ [233]%N ++ runes_of_ascii "t" ++ [233]%N ++ runes_of_ascii """ , 10 ,
+255 , 0 , 10 ]
+: u ,
+""x y""
+:
+    i8i8 }
+// `tick` ""quote"" 'q'
+//x
+,uint64 _x `
+` ,char[ 0 ] i64_ @calculatedFrom( ""CRC32""
+)
+    , }, x_y_z {
+char[] T
 // a // b
+// @lengthOf(
+,} ,} ,repeat  u64 Foo `a\`,
+    uint8
+uint8x,
+match
+//	t
+// trailing space 
+roots
+as chars {1
+    : _x ""a\""b"" :uint8x, 42 : metadata // " ++ [128512]%N ++ runes_of_ascii " emoji
+, // `tick` ""quote"" 'q'
+[// @lengthOf(
+""\n"" ,
+255]
+: zchar
+[ """ ++ [233]%N ++ runes_of_ascii "t" ++ [233]%N ++ runes_of_ascii """ ,3
+, 4294967296 ,// trailing space 
+0123456789 , ""x y"" ] : metadata[ // c
+""it's"" , ""// no comment""
+]  :Z9_
+    , }
+,	}
+    , } // a // b
+MetaData rootA	{ char[ 4294967296 ] msg_type,// @lengthOf(
+char[]  u128, uint64 a1 , int8 crc , Pad
+    msg_type `doc`
+,
+}
+//	t
+/// triple
+packet x_y_z
+    {@lengthOf( crc) match packetx as f32a	{ 0123456789:A
+,	00 :	u // @lengthOf(
+}, }
+")).
+Eval vm_compute in ("<<<M257>>>" ++ check (runes_of_ascii "options
+{
+BodyLength
+=3 ;// " ++ [128512]%N ++ runes_of_ascii " emoji
+T = ""packet""
+// @lengthOf(
+// trailing space 
+;
+// c
+// trailing space 
+crc = true ;
+falsey= '\x00'/// triple
+;
+} root packet A
+    {@leftPad (
+'0' )	char[
+65535 ] Header  `" ++ [233]%N ++ runes_of_ascii "` ,
+@rightPad( '0' ) //
+a1 @lengthOf( msg_type ) , @lengthOf( rootA )
+    match
+_x as //x
+stringy {""CRC32"" : chars, 3// `tick` ""quote"" 'q'
+:float , 255	:	asx // `tick` ""quote"" 'q'
+, 10  : tag ,//
+} ,
+    @calculatedFrom(
+    """ ++ [128512]%N ++ runes_of_ascii """	) u32 u8x`crlf
+line` , repeat char[]	asx `a\` , @rightPad ( '0'	)match f32a  as Packet
+    { [ 255 , ""CRC32"" , 007
+, ""1"",""packet"" , 00 ,
+    4294967296 ]	: calculatedFrom , ""packet"" :
+    falsey, ""a\""b"": body , 7// a // b
+: Packet // " ++ [128512]%N ++ runes_of_ascii " emoji
+0123456789 :	i64_ ,
+    // a // b
+    [4294967296 , 0123456789 ]  : // `tick` ""quote"" 'q'
+options1	} ,crc /// triple
+@lengthOf(	Foo
+    )
+    ,
+@calculatedFrom( ""{,}"")@lengthOf(metadata ) @lengthOf( i8i8
+)int64 options1 @calculatedFrom(""CRC32"" )
+    `line1
+line2` , // @lengthOf(
+} packet a1 // `tick` ""quote"" 'q'
+{ match lengthOf//
+as x_y_z
+{ ""it's"" :matchKey
+//
+// @lengthOf(
+, 10 :
+Packet , [ //x
+""abc""
+    ]// a // b
+: A 10 //x
+: metadata
+    ,
+    } ,
+}MetaData
+    body { char string_, char[]
+x, len Pad , string
+    leftPad , } // trailing space ")).
+Eval vm_compute in ("<<<M1734>>>" ++ check (runes_of_ascii "// a // b
+packet stringy {
+    string zchar,
+    repeat T,
+    match u as charz {
+        007 : float,
+        ""\" ++ [233]%N ++ runes_of_ascii """ : Logon,
+        ""a	b"" : pack,
+    },
+    match uint8x as roots {
+        1 : len,
+    },
+}
+
+packet zchar {
+    roots options1 `// not a comment`,
+    int64 As,
+    i16 float @lengthOf(falsey) `a\`,
+    int64 msg_type `tab	here`,
+    @tag(0)
+    repeat uint8x,
+    @lengthOf(x)
+    repeat metadata,
+    zchar[0] int,
+    uint64 zchar,
+    zchar[7] msg_type,
+    @calculatedFrom(""" ++ [28040; 24687]%N ++ runes_of_ascii """)
+    crc,
+}
+
+root packet zchar {
+    repeat leftPad,
+}
+
+packet A {
+    @lengthOf(string_)
+    x @lengthOf(options1) `two words`,
+    string len,
+}
+
+packet falsey {
+    i64_ @calculatedFrom(""{,}""),
+    repeat string chars,
+    zchar[7] calculatedFrom,
+    Header {
+        char u `two words`,
+        repeat char[] tag `say ""hi""`,
+        Z9_ @lengthOf(T) `line1
+        line2`,
+    },
+    msg_type @calculatedFrom(""// no comment""),
+    @rightPad('\x00')
+    @lengthOf(asx)
+    falsey,
+}// packet A { u8 x, }")).
+Eval vm_compute in ("<<<M1488>>>" ++ check (runes_of_ascii "// top
+packet Frame {
+    // c2a
+    // c2b
+    u8 HK,
+    // c5
+    u8 BK,// c8a
+    // c8b
+    u8 TK,// c11a
+    // c11b
+    match HK as Hdr {
+        // c16
+        1 : HdrA,
+        2 : HdrB,
+        // c24a
+        // c24b
+    },
+    // c26
+    match BK as Body {
+        // c31
+        1 : BodyA,
+        // c35
+        2 : BodyB,
+    },// c41
+    match TK as Trl {
+        // c46a
+        // c46b
+        1 : TrlA,
+        // c50a
+        // c50b
+    },// c52a
+    // c52b
+}// c53a
+
+// c53b
+packet HdrA {
+    u8 a,// c59
+}// c60
+
+packet HdrB {
+    // c63a
+    // c63b
+    u16 b,// c66
+}// c67
+
+packet BodyA {
+    // c70a
+    // c70b
+    u32 c,
+}// c74
+
+packet BodyB {
+    // c77
+    u64 d,// c80a
+    // c80b
+}// c81a
+
+// c81b
+packet TrlA {
+    // c84
+    u8 e,
+    // c87
+}// c88a
+
+// c88b
+root packet Msg {
+    Frame,// c94a
+    // c94b
+    u8 x,// c97a
+    // c97b
+}
+// c98")).
+Eval vm_compute in ("<<<M228>>>" ++ check (runes_of_ascii "packet
+//
+// " ++ [27880; 37322]%N ++ runes_of_ascii "
+BodyLength  {
+repeat
+    // @lengthOf(
+    zchar[	255]tag `crlf
+line` , } MetaData BodyLength	{
+char[ 65535] //	t
+packetx `" ++ [28040; 24687; 31867; 22411]%N ++ runes_of_ascii "` , } options
+    {
+    metadata =3; // trailing space 
+} packet Packet
+{ o { uint16	Logon
+    , } , @leftPad (  )char[ 0123456789 ]
+a1 `" ++ [28040; 24687; 31867; 22411]%N ++ runes_of_ascii "` // a // b
+,
+    repeat string
+lengthOf
+    `{ , }`	,stringy crc
+,@rightPad (
+' ' ) u32	MetaDataX
+    ,
+@rightPad('0' ) tag	{repeat f64 tag `u8 x,`
+, }
+    //	t
+    , char[
+    00 ] uint8x `` , match leftPad  as Header {""" ++ [233]%N ++ runes_of_ascii "t" ++ [233]%N ++ runes_of_ascii """  : Foo
+, [	""\" ++ [233]%N ++ runes_of_ascii """
+, 007
+,00 , 10, ""\" ++ [233]%N ++ runes_of_ascii """ ]: crc
+, [ 1 ,007 , ""a\\""
+    ,
+""packet""
+    ]: //	t
+len // packet A { u8 x, }
+, 10 : MetaDataX
+//x
+// " ++ [128512]%N ++ runes_of_ascii " emoji
+,  }
+//	t
+/// triple
+, } packet
+    i64_{
+@rightPad	('\x00'
+)
+@leftPad(
+) i8 body@calculatedFrom(""" ++ [233]%N ++ runes_of_ascii "t" ++ [233]%N ++ runes_of_ascii """) `it's` , }
+// @lengthOf(
+")).
+Eval vm_compute in ("<<<M93>>>" ++ check (runes_of_ascii "packet float { char[]
+    u8x
+@lengthOf( roots ) ,
+}MetaData leftPad	{ string
+    // `tick` ""quote"" 'q'
+    a1, }root
+packet // " ++ [27880; 37322]%N ++ runes_of_ascii "
+pack { falsey,
+    /// triple
+    match Logon
+as // " ++ [128512]%N ++ runes_of_ascii " emoji
+trueish
+{""packet""
+    : Foo ,"""" : len, 0123456789: i64_ , ""it's"" : packetx
+    ,
+    255
+    : len
+, }
+    , repeat
+As As `" ++ [233]%N ++ runes_of_ascii "` , @tag( 3  ) uint32 a1
+, repeat  zchar[ 4294967296]
+pack	,@leftPad (' ' )  zchar  @lengthOf( string_ ) `// not a comment` , repeat int ,
+repeat
+i8i8 // " ++ [27880; 37322]%N ++ runes_of_ascii "
+{ u64
+    // a // b
+    tag `say ""hi""`	,u8x , char trueish  , repeat // packet A { u8 x, }
+float32
+    stringy `line1
+line2` ,} ,match o
+as	o { 007  : float },
 // packet A { u8 x, }
-,}options {
+// c
+repeat
+    Pad ,
+// " ++ [27880; 37322]%N ++ runes_of_ascii "
+// trailing space 
+}")).
+Eval vm_compute in ("<<<M58>>>" ++ check (runes_of_ascii "packet pack
+// c
+// packet A { u8 x, }
+{u8 a1
+// trailing space 
+/// triple
+`say ""hi""` // packet A { u8 x, }
+, @leftPad (
+'\x00' )  uint8 Logon	`
+` // `tick` ""quote"" 'q'
+,
+char[]lengthOf // " ++ [27880; 37322]%N ++ runes_of_ascii "
+`" ++ [233]%N ++ runes_of_ascii "` ,
+//
+//x
+repeat char[] As,
+    //	t
+    @lengthOf(string_ )  @calculatedFrom(
+""a\\"" )
+    repeat
+    u8x	o	, char string_ @calculatedFrom(
+""a\""b"" )
+`tab	here`
+    , repeat As { char[
+    // packet A { u8 x, }
+    0 ] i64_//	t
+@lengthOf( T)
+`" ++ [233]%N ++ runes_of_ascii "` , char[4294967296	]
+T @calculatedFrom( ""\" ++ [233]%N ++ runes_of_ascii """ )
+, trueish
+, repeat int
+{string Logon @calculatedFrom(	""1"" ) , metadata  ,
+uint32
+Z9_  , // " ++ [27880; 37322]%N ++ runes_of_ascii "
+} , },@tag( 00 ) //	t
+i16  a1 `a\`
+    ,
     }
 ")).
-Eval vm_compute in ("<<<M349>>>" ++ check (runes_of_ascii "root
-packet body {
-    @lengthOf(
-int
+Eval vm_compute in ("<<<M1892>>>" ++ check (runes_of_ascii "
+packet  charz
+{  
+  // " ++ [27880; 37322]%N ++ runes_of_ascii "
+	/// triple
+    repeat	// c
+      string
+
+    int
+
+    `" ++ [28040; 24687; 31867; 22411]%N ++ runes_of_ascii "` ,  @calculatedFrom(
+""it's"" )
+@tag(
+
+255 ) 
+f64 	 // a // b
+    asx
+
+    ,string
+    T`doc` , zchar[
+
+    007 
+]
+	tag @lengthOf(//
+    Z9_	)
+`// not a comment`
+, } options	{
+
+u
+=
+u16;}	MetaData
+	chars
+
+    { i16
+falsey 
+,	f64
+pack ,
+
+char[ 
+1
+
+    ]
+    asx	`it's`
+	,
+char[] body
+, 
+	    // `tick` ""quote"" 'q'
+
+  //x
+
+  }  packet
+	leftPad
+    {  @rightPad
+
+    (
 // @lengthOf(
-//x
-)string tag
-    ,	Pad BodyLength , Z9_ {
-    /// triple
-    u `` , zchar[ 7] u ,
-},uint64 calculatedFrom, }packet
-msg_type {match f32a// " ++ [128512]%N ++ runes_of_ascii " emoji
-as pack
-    { ""// no comment"" : trueish
-, }
-    // trailing space 
-    , @calculatedFrom( // @lengthOf(
-""abc""
+    //x
+) repeat  Pad  float`{ , }` ,  } options
+
+    {
+
+roots
+    =
+    true ;
+
+    }
+")).
+Eval vm_compute in ("<<<M1115>>>" ++ check (runes_of_ascii "packet float
+    // c1
+{ // c2
+@rightPad // c3a
+  // c3b
+( // c4a
+  // c4b
+) // c5a
+  // c5b
+rootA // c6
+@lengthOf( // c7a
+  // c7b
+trueish // c8
 )
-    @leftPad (
-' ') @calculatedFrom( """" //x
-) // c
-matchKey T ,// `tick` ""quote"" 'q'
-}
-")).
-Eval vm_compute in ("<<<M1378>>>" ++ check (runes_of_ascii "
-
-  options {
-LittleEndian	=
-
-    true
-;
-
-} 
-packet
-    Logon {
-u8	x	, 
-}
-	packet
-    Logout {
-    u16
-reason
-
-,  }	root
-    packet
-    Frame { i8 
-Kind ,i8
-
-    Kind2
+    // c9
 ,
-match
-	Kind
-    as	Body { 1 
-: Logon , [
-2
-
-    ,	3
-
-    ,
-
-    4  ]
-:
-	Logout,  100
-    :  Logon ,
-}
-
-    ,
-
-match
-
-    Kind2  as
-
-    Trailer
-	{
-
-    0 :	Logout
-	, }, 
-}
-")).
-Eval vm_compute in ("<<<M1643>>>" ++ check (runes_of_ascii "// top
-root packet _x {
-    match Foo as Z9_ {
-        // c8
-        ""a	b"" : Pad,
-    },// c14
-    repeat x `line1
-        line2`,// c18
-    @rightPad(' ')
-    @calculatedFrom(""a\\"")
-    // c25a
-    // c25b
-    metadata MetaDataX,
-    @tag(0)
+    // c10
+stringy // c11a
+  // c11b
+@lengthOf( // c12a
+  // c12b
+matchKey )
+    // c14
+, // c15a
+  // c15b
+char[ 4294967296 ]
+    // c18
+pack @lengthOf(
+    // c20
+uint8x
+    // c21
+) // c22a
+  // c22b
+,
+    // c23
+} // c24
+root // c25
+packet trueish {
+    // c28
+repeat uint64
+    // c30
+u128
     // c31
-    Logon int ``,
-}// c36
-
-options {
-    // c38
-    T = '\x00'
-}// c42a")).
-Eval vm_compute in ("<<<M1310>>>" ++ check (runes_of_ascii "
-packet
-A
-	{
-
-u8 a
-	, } packet
-    B 
-{ u16 b
+`line1
+line2` // c32
 ,
-	} packet
-    C 
-{	u32 
-c,
-
+    // c33
 }
-	root
-    packet
+    // c34
+")).
+Eval vm_compute in ("<<<M1235>>>" ++ check (runes_of_ascii "// top
+options
+    // c0
+{
+    // c1
+f32a
+    // c2
+=
+    // c3
+0
+    // c4
+}
+    // c5
+packet
+    // c6
+trueish
+    // c7
+{
+    // c8
+}
+    // c9
+MetaData
+    // c10
+_x
+    // c11
+{
+    // c12
+char[
+    // c13
+0123456789
+    // c14
+]
+    // c15
+zchar
+    // c16
+,
+    // c17
+string
+    // c18
+crc
+    // c19
+,
+    // c20
+char[
+    // c21
+1
+    // c22
+]
+    // c23
+options1
+    // c24
+,
+    // c25
+uint8
+    // c26
+repeatCount
+    // c27
+,
+    // c28
+}
+    // c29
+")).
+Eval vm_compute in ("<<<M1638>>>" ++ check (runes_of_ascii "  options{u 
+=
+7  
+  // " ++ [27880; 37322]%N ++ runes_of_ascii "
 
-    M
-	{u16
+roots
+	= zchar[
 
-    Kc ,
-u16 Kb
-	, u16
-    Ka
+65535]	msg_type
+    =""" ++ [233]%N ++ runes_of_ascii "t" ++ [233]%N ++ runes_of_ascii """
+    ;x
+=
+false
+}
+MetaData string_
+	{
+char[ 	 // trailing space 
+	  42 
+        //x
+    // " ++ [128512]%N ++ runes_of_ascii " emoji
+
+]
+	i8i8
+
+    `" ++ [28040; 24687; 31867; 22411]%N ++ runes_of_ascii "`
+    , u8 x_y_z
+
+    ,packetx 
+lengthOf
+    `` 
+      // " ++ [27880; 37322]%N ++ runes_of_ascii "
 
 ,
-match  Kc
-
-    as
-X
-	{9
-:A
+    T Header
+	`line1
+line2`
 
     ,
-10
-:B  , } ,match	Kb  as
-Y{	2
-: C
-,  1 :A
+char[]	// " ++ [27880; 37322]%N ++ runes_of_ascii "
+u8x
+	`two words` ,
+    } packet	float//x
+    {calculatedFrom ,
+	@rightPad
+    ( '0') 
+char[  3
+	]u128, } ")).
+Eval vm_compute in ("<<<M1259>>>" ++ check (runes_of_ascii "// top
+packet // c0
+B // c1a
+  // c1b
+{ // c2
+u8 // c3a
+  // c3b
+a // c4
+, } // c6
+root // c7a
+  // c7b
+packet // c8a
+  // c8b
+P { // c10
+u8
+    // c11
+K , // c13
+u8 // c14a
+  // c14b
+L // c15a
+  // c15b
+@lengthOf( // c16a
+  // c16b
+Body )
+    // c18
+, match // c20
+K as // c22a
+  // c22b
+Body
+    // c23
+{ 1 :
+    // c26
+B // c27
+, }
+    // c29
+,
+    // c30
+}
+    // c31
+")).
+Eval vm_compute in ("<<<M1674>>>" ++ check (runes_of_ascii "
 
+  root packet
+	int{
+
+match MetaDataX as
+
+    charz
+    {
+255
+:
+
+uint8x
 ,
 
-} ,  match	Ka
-    as
-Z {
-1 :
-B	, 
-}, A 
-,B
-, C
-,
+65535 : // @lengthOf(
 
+u128""\" ++ [233]%N ++ runes_of_ascii """
+
+:
+	o  , 0123456789
+	:  _x 
+""{,}""	: 
+matchKey
+	// `tick` ""quote"" 'q'
+    // `tick` ""quote"" 'q'
+[
+
+4294967296
+    , 
+"""",	10 ] : charz , 
+}	,@lengthOf(  roots
+
+    )	x  @calculatedFrom(
+	""\n"" ),
+    i32	tag  ,
     }")).
-Eval vm_compute in ("<<<M1314>>>" ++ check (runes_of_ascii "packet MDSnapshotZZ {
+Eval vm_compute in ("<<<M1359>>>" ++ check (runes_of_ascii "options
+    {
+	LittleEndian 
+=
+false ; StringPrefixLenType
+
+    =
+u16
+
+; }  packet
+    Heartbeat
+	{ @rightPad(
+
+    '0')
+	char[
+7 ]
+seqNo	,
+	uint64 Tail
+,
+
+    i16
+Flags 
+,
+u16
+msgKind,  } root
+
+packet
+    Reject
+{ 
+zchar[
+	3
+]tag7
+
+,
+    repeat Heartbeat ,	repeat 
+string
+	clOrdID,	}
+
+")).
+Eval vm_compute in ("<<<M1689>>>" ++ check (runes_of_ascii "//	t
+    options 
+{	chars
+
+    = true	As= char[] 
+// trailing space 
+// " ++ [128512]%N ++ runes_of_ascii " emoji
+	; 	 /// triple
+  	x_y_z = 7
+
+;	// " ++ [27880; 37322]%N ++ runes_of_ascii "
+    i8i8  =
+true packetx=  /// triple
+	' ' 
+}	root
+packet x_y_z {
+repeat  char[
+42
+    //x
+    ]	//	t
+  Pad,
+	} 
+    // packet A { u8 x, }")).
+Eval vm_compute in ("<<<M1659>>>" ++ check (runes_of_ascii "
+options { 
+Z9_
+	=  // trailing space 
+	""packet""
+	; 
+float 
+= false 
+;
+A
+	= ' '
+}
+
+// c
+	  MetaData 
+pack 
+{zchar[3
+
+] leftPad , zchar 
+falsey  `it's`
+,
+char[] 
+repeatCount , char[ 65535// " ++ [128512]%N ++ runes_of_ascii " emoji
+  ]  Z9_ ,
+} 
+	    //	t
+")).
+Eval vm_compute in ("<<<M249>>>" ++ check (runes_of_ascii "
+packet
+rootA {
+} // trailing space 
+packet f32a //	t
+{ match
+zchar as zchar
+    {	65535 : f32a , 7 : charz// trailing space 
+,
+""{,}""
+//	t
+//x
+: Header , 42
+    :a1 // packet A { u8 x, }
+, }
+, }
+")).
+Eval vm_compute in ("<<<M1293>>>" ++ check (runes_of_ascii "packet A {
     u8 a,
 }
-packet OrderACK {
+packet B {
     u16 b,
 }
-packet HTTPServerInfo {
-    string s,
-}
-root packet FIXMsg {
-    u8 KType,
-    MDSnapshotZZ,
-    repeat OrderACK,
-    match KType as Body {
-        1 : HTTPServerInfo,
-        2 : OrderACK,
+root packet P {
+    u8 K1,
+    u8 K2,
+    match K1 as M1 {
+        1 : A,
+    },
+    match K2 as M2 {
+        1 : B,
     },
 }
 ")).
-Eval vm_compute in ("<<<M214>>>" ++ check (runes_of_ascii "MetaData tag {body Packet	, int16 // @lengthOf(
-body // `tick` ""quote"" 'q'
-, f32a uint8x , } packet falsey {
-x { char[ 7 ] lengthOf , char[] o
-    `say ""hi""`
-    // `tick` ""quote"" 'q'
-    ,
-//
-/// triple
-}
-,}
-// `tick` ""quote"" 'q'
-")).
-Eval vm_compute in ("<<<M1855>>>" ++ check (runes_of_ascii "packet A {
-    Inner {
-        u8 x `a
-                    b
-                  c`,
-        Deep {
-            u8 y `a
-                            b
-                          c`,
-        },
+Eval vm_compute in ("<<<M1849>>>" ++ check (runes_of_ascii "packet A {
+    match k as n {
+        [
+            1, ""bb"", 007, ""d"", 5,
+            ""f"", 7, ""h"", 9, ""j"",
+            11
+        ] : B,
+        2 : C,
     },
 }")).
-Eval vm_compute in ("<<<M62>>>" ++ check (runes_of_ascii "packet
-crc { @leftPad //	t
-( ) repeat
-charz float
-    ,} root packet
-options1 {
-@tag( 65535/// triple
-)packetx
-{ u128 , f32 /// triple
-a1 ,
-    } , }
-// trailing space 
-")).
-Eval vm_compute in ("<<<M355>>>" ++ check (runes_of_ascii "options  { As = true
-    MetaDataX =true	}	packet A { repeat calculatedFrom `say ""hi""`
-    ,} MetaData crc { u crc ,
-    uint32 body , i16 stringy
-`u8 x,`
-, }
-")).
-Eval vm_compute in ("<<<M478>>>" ++ check (runes_of_ascii "packet uint8x
-{ match pack
-    as msg_type	{
-    0123456789 :	float
+Eval vm_compute in ("<<<M1480>>>" ++ check (runes_of_ascii "
+packet 
+i64_
+{ }
+MetaData
+uint8x { Packet
+tag
+    ,
+u8	repeatCount  ,
+	x_y_z	_x
+
+    `" ++ [233]%N ++ runes_of_ascii "`  ,  zchar[
+    42
+    ]
+	crc
+	`a\`
+, 
 }
-,
-} packet //	t
-a1
-    { char[ options {packetx
-    = '\x00'	; u128= ""a	b""  ; }
+
+    options{ }
 ")).
 Eval vm_compute in ("<<<M531>>>" ++ check (runes_of_ascii "packet uint8x
 { match pack
@@ -908,10 +889,10 @@ a1
     { } options {packetx
     = '\x00'	; u128= ""a	b""  ; } }
 ")).
-Eval vm_compute in ("<<<M428>>>" ++ check (runes_of_ascii "packet uint8x
+Eval vm_compute in ("<<<M432>>>" ++ check (runes_of_ascii "packet uint8x
 { match pack
-    as msg_type	}
-    0123456789 :	float
+    as msg_type	{
+    : 0123456789	float
 }
 ,
 } packet //	t
@@ -919,18 +900,18 @@ a1
     { } options {packetx
     = '\x00'	; u128= ""a	b""  ; }
 ")).
-Eval vm_compute in ("<<<M450>>>" ++ check (runes_of_ascii "packet uint8x
+Eval vm_compute in ("<<<M455>>>" ++ check (runes_of_ascii "packet uint8x
 { match pack
     as msg_type	{
     0123456789 :	float
 }
-
-} packet //	t
+,
+ packet //	t
 a1
     { } options {packetx
     = '\x00'	; u128= ""a	b""  ; }
 ")).
-Eval vm_compute in ("<<<M493>>>" ++ check (runes_of_ascii "packet uint8x
+Eval vm_compute in ("<<<M510>>>" ++ check (runes_of_ascii "packet uint8x
 { match pack
     as msg_type	{
     0123456789 :	float
@@ -938,8 +919,8 @@ Eval vm_compute in ("<<<M493>>>" ++ check (runes_of_ascii "packet uint8x
 ,
 } packet //	t
 a1
-    { } options {f64
-    = '\x00'	; u128= ""a	b""  ; }
+    { } options {packetx
+    = '\x00'	; = ""a	b""  ; }
 ")).
 Eval vm_compute in ("<<<M677>>>" ++ check (runes_of_ascii "// @lengthOf(
 packet i8i8 { u128 o , }
@@ -949,78 +930,15 @@ crc //x
 = ""abc"" ;
     msg_type =
 i16 }")).
-Eval vm_compute in ("<<<M689>>>" ++ check (runes_of_ascii "// @lengthOf(
+Eval vm_compute in ("<<<M704>>>" ++ check (runes_of_ascii "// @lengthOf(
 packet i8i8 { u128 o , }
-options { MetaDataX  true;
-    BodyLength =""packet"" x_y_z= 007
+options { MetaDataX = true;
+    BodyLength =""packet"" x_y_z 007
 crc //x
 = ""abc"" ;
     msg_type =
 i16 }")).
-Eval vm_compute in ("<<<M716>>>" ++ check (runes_of_ascii "// @lengthOf(
-packet i8i8 { u128 o , }
- { MetaDataX = true;
-    BodyLength =""packet"" x_y_z= 007
-crc //x
-= ""abc"" ;
-    msg_type =
-i16 }")).
-Eval vm_compute in ("<<<M1772>>>" ++ check (runes_of_ascii "packet A 
-{	match k
-    as
-n
-	{
-
-[
-1 ,""bb""
-,007
-,""d""
-    ,
-
-    5  ,
-""f""
-,
-7
-,""h""	,
-
-9  , ""j"" ,11 ,	""l""  ]
-
-: B
-
-, 2 :C	}	,
-	}")).
-Eval vm_compute in ("<<<M171>>>" ++ check (runes_of_ascii "options { Pad=	'\x00' ; u
-= false  repeatCount
-    = false ;// trailing space 
-T
-=// a // b
-""CRC32"" ;
-    a1 = ""it's""}
-")).
-Eval vm_compute in ("<<<M1166>>>" ++ check (runes_of_ascii "MetaData leftPad { chars MetaDataX , } packet repeatCount { char[ 255
-// c
-] uint8x `" ++ [233]%N ++ runes_of_ascii "` , } MetaData pack { As Foo , }")).
-Eval vm_compute in ("<<<M1460>>>" ++ check (runes_of_ascii "
-
-  packet  A{
-
-match k
-
-    as
-	n
-    {
-
-[	1	, ""bb"" ,
-	007
-
-, ""d""
-    ,5, ""f""
-    ] :
-	B
-    ,
-    2:  C
-}  , } ")).
-Eval vm_compute in ("<<<M494>>>" ++ check (runes_of_ascii "packet uint8x
+Eval vm_compute in ("<<<M519>>>" ++ check (runes_of_ascii "packet uint8x
 { match pack
     as msg_type	{
     0123456789 :	float
@@ -1028,143 +946,204 @@ Eval vm_compute in ("<<<M494>>>" ++ check (runes_of_ascii "packet uint8x
 ,
 } packet //	t
 a1
-    { } options {")).
-Eval vm_compute in ("<<<M1276>>>" ++ check (runes_of_ascii "options {
-    LittleEndian = true;
+    { } options {packetx
+    = '\x00'	; u128")).
+Eval vm_compute in ("<<<M1545>>>" ++ check (runes_of_ascii "MetaData leftPad {
+    chars MetaDataX,
 }
-root packet P {
-    u16 a,
-    u32 Sum @calculatedFrom(""CRC32""),
+
+packet repeatCount {
+    char[255] uint8x `" ++ [233]%N ++ runes_of_ascii "`,
 }
-")).
-Eval vm_compute in ("<<<M950>>>" ++ check (runes_of_ascii "packet A {
-    Inner {
-        u8 x `x
-`,
-        Deep {
-            u8 y `x
-`,
-        },
+
+MetaData pack {
+    // c
+    As Foo,
+}")).
+Eval vm_compute in ("<<<M1532>>>" ++ check (runes_of_ascii "packet A {
+    u16 len @lengthOf(body) `tab
+    	x`,
+    u32 crc @calculatedFrom(""CRC32"") `tab
+    	x`,
+    string body,
+}")).
+Eval vm_compute in ("<<<M1154>>>" ++ check (runes_of_ascii "MetaData leftPad { chars MetaDataX ,
+// c
+} packet repeatCount { char[ 255 ] uint8x `" ++ [233]%N ++ runes_of_ascii "` , } MetaData pack { As Foo , }")).
+Eval vm_compute in ("<<<M1186>>>" ++ check (runes_of_ascii "MetaData leftPad { chars MetaDataX , } packet repeatCount { char[ 255 ] uint8x `" ++ [233]%N ++ runes_of_ascii "` , } MetaData pack { As Foo
+// c
+, }")).
+Eval vm_compute in ("<<<M1577>>>" ++ check (runes_of_ascii "packet asx {
+    match u128 as lengthOf {
+        //	t
+        // `ti/ck` ""quote"" 'q'
+        255 : x,
     },
 }")).
-Eval vm_compute in ("<<<M199>>>" ++ check (runes_of_ascii "packet falsey { string a1 @lengthOf( packetx ) , }
-packet	int { Header	@lengthOf( stringy)
-, }")).
-Eval vm_compute in ("<<<M869>>>" ++ check (runes_of_ascii "packet A {
+Eval vm_compute in ("<<<M24>>>" ++ check (runes_of_ascii "options { metadata
+= '\x00' ;
+    u128
+=
+    ""CRC32"" ; charz = ' 'options1 = 00 ; }
+packet string_ { }
+")).
+Eval vm_compute in ("<<<M160>>>" ++ check (runes_of_ascii "
+MetaData zchar { roots
+A , char[] falsey `line1
+line2` ,
+// " ++ [128512]%N ++ runes_of_ascii " emoji
+// @lengthOf(
+int crc ,	} //	t")).
+Eval vm_compute in ("<<<M876>>>" ++ check (runes_of_ascii "packet A {
   match k as n {
-    [1, ""bb"", 007, ""d"", 5, ""f"", 7, ""h"", 9] : B,
+    [""a"", ""bb"", 007, ""d"", ""e"", 66, ""g"", ""h"", 9] : B
     2 : C
   },
 }")).
-Eval vm_compute in ("<<<M858>>>" ++ check (runes_of_ascii "packet A {
-  match k as n {
-    [""a"", 22, ""c c"", 4, ""e"", 66, ""g"", 8] : B,
-    2 : C
-  },
-}")).
-Eval vm_compute in ("<<<M612>>>" ++ check (runes_of_ascii "
+Eval vm_compute in ("<<<M1672>>>" ++ check (runes_of_ascii "
+packet A{  Inner 
+{
+
+match
+k
+
+    as n	{
+	[
+1
+	,
+22
+]
+    :B
+
+    ,
+
+}	,}
+	,
+    }
+
+")).
+Eval vm_compute in ("<<<M632>>>" ++ check (runes_of_ascii "
 packet
-    asx {match u128 as lengthOf
+    asx {match u128 a|s lengthOf
 {
 //	t
 // `tick` ""quote"" 'q'
 255 : x ,
-     ,	}")).
-Eval vm_compute in ("<<<M969>>>" ++ check (runes_of_ascii "packet A {
-    u32 crc @calculatedFrom(""x\
-y""),
-    @calculatedFrom(""x\
-y"") u8 y,
-}")).
-Eval vm_compute in ("<<<M1532>>>" ++ check (runes_of_ascii "  packet  A{ 
-Inner  {
-    u8 x `a
-b` ,Deep {  u8
-    y`a
-b`	, } ,
+    } ,	}")).
+Eval vm_compute in ("<<<M1389>>>" ++ check (runes_of_ascii "MetaData crc {
+    Pad T,
+    zchar[0123456789] a1,
+    int8 trueish,
+}
 
-    } , } ")).
-Eval vm_compute in ("<<<M1427>>>" ++ check (runes_of_ascii "packet A {
-    B b `a
-    b`,
-    B `a
-    b`,
-    repeat B bs `a
-    b`,
+packet float {
 }")).
-Eval vm_compute in ("<<<M1648>>>" ++ check (runes_of_ascii "packet A {
-    @leftPad()
-    char[4] x,
-    @rightPad()
-    zchar[2] y,
-}")).
-Eval vm_compute in ("<<<M454>>>" ++ check (runes_of_ascii "packet uint8x
-{ match pack
-    as msg_type	{
-    0123456789 :	float
-}")).
-Eval vm_compute in ("<<<M1508>>>" ++ check (runes_of_ascii "
+Eval vm_compute in ("<<<M1955>>>" ++ check (runes_of_ascii "
 
-  // c
-	packet
-body
-	{
+  packet A  { match k
+	as n
 
-i32 f32a `{ , }`	, }
-    options
-{	}
+    {  [ 1,""bb""	,
+
+    007
+,
+	""d""	] :B 2 : C}
+,
+
+}")).
+Eval vm_compute in ("<<<M815>>>" ++ check (runes_of_ascii "packet A {
+  match k as n {
+    [""a"", ""bb"", ""c c"", ""d"", ""e""] : B,
+    2 : C
+  },
+}")).
+Eval vm_compute in ("<<<M840>>>" ++ check (runes_of_ascii "packet A {
+  match k as n {
+    [1, 22, 007, 4, 5, 66, 7] : B
+    2 : C
+  },
+}")).
+Eval vm_compute in ("<<<M1859>>>" ++ check (runes_of_ascii "packet
+
+A	{ 
+match k
+	as  n {[ 
+""a""
+,
+""bb""
+    ] : B,	2
+
+    :C } , }
+")).
+Eval vm_compute in ("<<<M809>>>" ++ check (runes_of_ascii "packet A {
+  match k as n {
+    [1, 22, ""c c"", 4] : B
+    2 : C
+  },
+}")).
+Eval vm_compute in ("<<<M628>>>" ++ check (runes_of_ascii "
+packet
+    asx {match u128 as lengthOf
+{
+//	t
+// `tick` ""quote""")).
+Eval vm_compute in ("<<<M261>>>" ++ check (runes_of_ascii "options{ asx= ""1"" //	t
+Pad =  0 stringy =
+    '\x00'
+    ; }")).
+Eval vm_compute in ("<<<M1423>>>" ++ check (runes_of_ascii "
+MetaData
+_x {  i64 u128
+	,
+	Packet	Header	,
+
+    }
+")).
+Eval vm_compute in ("<<<M1199>>>" ++ check (runes_of_ascii "packet // c
+body { i32 f32a `{ , }` , } options { }")).
+Eval vm_compute in ("<<<M333>>>" ++ check (runes_of_ascii "  MetaData
+x_y_z{ }	packet chars	{	} options {}
+")).
+Eval vm_compute in ("<<<M755>>>" ++ check (runes_of_ascii "string i8 ) } u8 [ uint32 ] } = uint8 '\x00'")).
+Eval vm_compute in ("<<<M1702>>>" ++ check (runes_of_ascii "  MetaData
+
+    u{ 
+        // c
+
+	}
 
 ")).
-Eval vm_compute in ("<<<M88>>>" ++ check (runes_of_ascii "options// @lengthOf(
-{a1 = 65535
-// `tick` ""quote"" 'q'
-// c
-}")).
-Eval vm_compute in ("<<<M1088>>>" ++ check (runes_of_ascii "packet A { @tag(1) // a
- @leftPad('0') // b
- char[4] x, }")).
-Eval vm_compute in ("<<<M1200>>>" ++ check (runes_of_ascii "packet
-// c
-body { i32 f32a `{ , }` , } options { }")).
-Eval vm_compute in ("<<<M1073>>>" ++ check (runes_of_ascii "packet A {} packet B {} MetaData M {} options {}")).
-Eval vm_compute in ("<<<M363>>>" ++ check (runes_of_ascii "MetaData
-    // @lengthOf(
-    tag {
-    }")).
-Eval vm_compute in ("<<<M971>>>" ++ check (runes_of_ascii "options {
-    a = ""\
-"";
-    b = ""\
-""
-}")).
-Eval vm_compute in ("<<<M922>>>" ++ check (runes_of_ascii "root packet A {
-    u8 x `a
-b`,
-}")).
-Eval vm_compute in ("<<<M993>>>" ++ check (runes_of_ascii "packet A {
- u8 x `d" ++ [133]%N ++ runes_of_ascii "`, // c" ++ [133]%N ++ runes_of_ascii "
-}")).
-Eval vm_compute in ("<<<M947>>>" ++ check (runes_of_ascii "packet A {
-    u8 x `x
+Eval vm_compute in ("<<<M1897>>>" ++ check (runes_of_ascii "packet
+
+    x
+{
+} 
+    // c
+ 
+")).
+Eval vm_compute in ("<<<M934>>>" ++ check (runes_of_ascii "root packet A {
+    u8 x `
 `,
 }")).
-Eval vm_compute in ("<<<M414>>>" ++ check (runes_of_ascii "packet uint8x
-{ match")).
-Eval vm_compute in ("<<<M59>>>" ++ check (runes_of_ascii "packet
-int {
+Eval vm_compute in ("<<<M175>>>" ++ check (runes_of_ascii "
+packet calculatedFrom { } 	 ")).
+Eval vm_compute in ("<<<M1652>>>" ++ check (runes_of_ascii "// c" ++ [12288]%N ++ runes_of_ascii "
+	  packet
+    A{} ")).
+Eval vm_compute in ("<<<M1103>>>" ++ check (runes_of_ascii "// c
+MetaData tag { }")).
+Eval vm_compute in ("<<<M1130>>>" ++ check (runes_of_ascii "MetaData // c
+u { }")).
+Eval vm_compute in ("<<<M1021>>>" ++ check (runes_of_ascii "packet A {
 }
-//	t
-")).
-Eval vm_compute in ("<<<M982>>>" ++ check (runes_of_ascii "// c" ++ [12288]%N ++ runes_of_ascii "
-packet A {
-}")).
-Eval vm_compute in ("<<<M1083>>>" ++ check (runes_of_ascii "packet A { // a
- }")).
-Eval vm_compute in ("<<<M1229>>>" ++ check (runes_of_ascii "packet x
-// c
-{ }")).
-Eval vm_compute in ("<<<M3>>>" ++ check (runes_of_ascii "options {}
+// c" ++ [8239]%N)).
+Eval vm_compute in ("<<<M999>>>" ++ check (runes_of_ascii "packet A {
+}// c" ++ [8192]%N)).
+Eval vm_compute in ("<<<M378>>>" ++ check (runes_of_ascii "// @lengthOf(
 
 ")).
-Eval vm_compute in ("<<<M1020>>>" ++ check (runes_of_ascii "// c" ++ [8239]%N)).
-Eval vm_compute in ("<<<M72>>>" ++ check (@nil rune)).
+Eval vm_compute in ("<<<M1911>>>" ++ check (runes_of_ascii "
+// c" ++ [12288]%N ++ runes_of_ascii "
+ 
+")).
+Eval vm_compute in ("<<<M754>>>" ++ check (runes_of_ascii "Y )'")).
